@@ -909,7 +909,20 @@ func (env *Zlisp) FindObject(name string) (Sexp, bool) {
 func (env *Zlisp) Apply(fun *SexpFunction, args []Sexp) (Sexp, error) {
 	//VPrintf("\n\n debug Apply not working on user funcs: fun = '%#v'   and args = '%#v'\n\n", fun, args)
 	if fun.user {
-		return fun.userfun(env, fun.name, args)
+		// a Go function: protect the host against a panic in it as
+		// CallUserFunction does for calls from scripts. (Macros written
+		// in Go are expanded through here, at compile time.)
+		callState := env.captureControlState()
+		return func() (res Sexp, err error) {
+			defer func() {
+				if recovered := recover(); recovered != nil {
+					env.restoreControlState(callState)
+					res = SexpNull
+					err = fmt.Errorf("Error calling '%s': caught panic: '%v'", fun.name, recovered)
+				}
+			}()
+			return fun.userfun(env, fun.name, args)
+		}()
 	}
 
 	callState := env.captureControlState()
